@@ -14,6 +14,7 @@ import SxVerif.Generated.StagesEngine
 import SxVerif.Generated.Constants
 import SxVerif.Generated.Problems
 import SxVerif.Generated.Wiring
+import SxVerif.Generated.Limiter
 
 namespace SxVerif.C12
 open SxVerif.Engine SxVerif.Generated SxVerif.StageDesc
@@ -27,6 +28,13 @@ theorem translator_clean : translatorProblems = [] := by decide
     io.EOF afterwards and hands out copies, so no read touches unmapped memory (before the fix a reply arriving
     at that moment was a SIGSEGV; the dynamic side is the reply-flood case of component `e2e`). -/
 theorem capture_source_safe_against_close : readSafeAgainstClose = true := by decide
+
+/-- (T) a worker of an application scan is not held by the rate limiter after Ctrl-C: `rateLimitScanner.Scan` makes
+    `limiter.Take()` — an uninterruptible sleep until the next slot, a whole rate window with `--rate 1/m` — in a
+    goroutine and awaits it against `ctx.Done()`; cancelled, it returns `ctx.Err()` at once.  (Before the fix every
+    worker slept out its slot, one after the other: D28; dynamic side: the slow-rate cases of `e2esigint`.) -/
+theorem rate_limited_probe_interruptible :
+    SxVerif.Limiter.takeInterruptible SxVerif.Generated.Limiter.scanWrapper "Scan" = true := by decide
 
 /-- (T) the side conditions of the generic theorems, decided on the regenerated stage descriptors:
     `SingleCloser`, `CloseAfterSenders`, `GuardedOnReturnPath`, the guards the transition system
